@@ -65,7 +65,7 @@ Definition helper_idle (s : state) (c : tid) : Prop :=
 
 (** ---- C10_acks_exact ---- *)
 
-Theorem acks_exact : forall s, reach s ->
+Theorem acks_exact_inv : forall s, Inv s ->
   (* every stop-ack counter is exactly the number of children not yet acknowledged *)
   (forall p, p <= N ->
      wc (th s p) = Z.of_nat (length (filter (unacked s p) (children N parent p))) /\
@@ -77,7 +77,7 @@ Theorem acks_exact : forall s, reach s ->
                            self (th s c) = false /\ wc (th s c) = 0%Z /\
                            (job (th s c) = (-1)%Z)).
 Proof.
-  intros s R. destruct (reach_inv s R) as (I & J & L). split.
+  intros s (I & J & L). split.
   - intros p Hp. pose proof (e_w1 _ _ _ I p Hp) as W. unfold npending in W. split; [exact W|lia].
   - intros Hpc Hb c Hc. apply andb_prop in Hb. destruct Hb as (Hw & _). apply Z.eqb_eq in Hw.
     destruct (barrier_all N parent Htree s I Hw c c (le_n _) Hc) as (A & B).
@@ -150,10 +150,10 @@ Proof.
   - eapply NA; eauto.
 Qed.
 
-Theorem no_stale_search : forall s, reach s -> master_idle s ->
+Theorem no_stale_search_inv : forall s, Inv s -> master_idle s ->
   forall c, helper c -> helper_idle s c.
 Proof.
-  intros s R Hm c Hc. pose proof (reach_inv s R) as HI. destruct HI as (I & J & L).
+  intros s HI Hm c Hc. destruct HI as (I & J & L).
   destruct (idle_epochs s I Hm) as (E1 & E2 & E3).
   destruct (quiet_all N parent s I E2 c Hc) as (Q1 & Q2).
   destruct (e_a1 _ _ _ I c Hc ltac:(lia)) as (A1 & A2 & A3 & A4).
@@ -171,11 +171,11 @@ Qed.
 
 (** the result the engine thread is about to take from its mailbox while searching belongs to
     the current search; it is accepted (HelperThreadResult) iff its jobId is the current one *)
-Theorem result_current_job : forall s j sd f r, reach s -> master_searching s ->
+Theorem result_current_job_inv : forall s j sd f r, Inv s -> master_searching s ->
   qu s 0 = CReport j sd f :: r ->
   sd = sid s /\ (1 <= j)%Z /\ helper f /\ parent f = Some 0.
 Proof.
-  intros s j sd f r R Hm Hq. destruct (reach_inv s R) as (I & J & L).
+  intros s j sd f r (I & J & L) Hm Hq.
   destruct (e_phase _ _ _ I) as (ph & E1 & E2). unfold master_searching in Hm.
   rewrite Hm in E1. injection E1 as <-. simpl in E2.
   destruct (report_current N parent s 0 j sd f r I J (Nat.le_0_l _) Hq ltac:(lia))
@@ -184,12 +184,12 @@ Qed.
 
 (** ---- C10_one_bestmove ---- *)
 
-Theorem one_bestmove : forall s, reach s ->
+Theorem one_bestmove_inv : forall s, Inv s ->
   nbest s <= sid s <= S (nbest s) /\
   (master_idle s -> nbest s = sid s) /\
   (master_searching s -> S (nbest s) = sid s).
 Proof.
-  intros s R. destruct (reach_inv s R) as (I & J & L).
+  intros s (I & J & L).
   destruct (e_phase _ _ _ I) as (ph & E1 & E2).
   unfold master_idle, master_searching. rewrite E1.
   destruct ph; simpl in E2; repeat split; try lia; intros X; try discriminate; lia.
@@ -197,7 +197,7 @@ Qed.
 
 (** ---- C10_no_lost_wakeup ---- *)
 
-Theorem no_lost_wakeup : forall s, reach s ->
+Theorem no_lost_wakeup_inv : forall s, Inv s ->
   (* a helper blocked in threadNotifier.wait() with work to do has its flag set *)
   (forall c, helper c -> pc (th s c) = PWait KMain ->
      (qu s c <> [] \/ job (th s c) <> (-1)%Z \/ self (th s c) = true) -> flag s c = true) /\
@@ -208,7 +208,7 @@ Theorem no_lost_wakeup : forall s, reach s ->
   (pc (th s 0) = PWait KTop -> (search s = true \/ quitf s = true) ->
      flag s 0 = true \/ epc s <> EIdle).
 Proof.
-  intros s R. destruct (reach_inv s R) as (I & J & L). repeat split.
+  intros s (I & J & L). repeat split.
   - intros c Hc Hpc [Hq|[Hj|Hs]].
     + destruct (l_q _ _ L c Hc Hq) as [F|F]; auto. rewrite Hpc in F. discriminate.
     + destruct (l_wait _ _ L c Hc (or_introl Hpc)) as (_ & F). auto.
@@ -216,5 +216,20 @@ Proof.
   - apply (l_mq _ _ L).
   - apply (l_mtop _ _ L).
 Qed.
+
+(** ---- the same statements for reachable states ---- *)
+Definition acks_exact s (R : reach s) := acks_exact_inv s (reach_inv s R).
+Definition no_stale_search s (R : reach s) := no_stale_search_inv s (reach_inv s R).
+Definition result_current_job s j sd f r (R : reach s) := result_current_job_inv s j sd f r (reach_inv s R).
+Definition one_bestmove s (R : reach s) := one_bestmove_inv s (reach_inv s R).
+Definition no_lost_wakeup s (R : reach s) := no_lost_wakeup_inv s (reach_inv s R).
+
+(** states reachable from an arbitrary start state *)
+Inductive reachF (s0 : state) : state -> Prop :=
+| reachF_refl : reachF s0 s0
+| reachF_step : forall s lb s', reachF s0 s -> lstep s lb = Some s' -> reachF s0 s'.
+
+Lemma reachF_inv : forall s0 s, Inv s0 -> reachF s0 s -> Inv s.
+Proof. induction 2; auto. eapply Inv_step; eauto. Qed.
 
 End T.
